@@ -18,6 +18,10 @@ def universe(rng):
     inside = set()
     for _ in range(rng.randint(2, 7)):
         inside.add(base + tuple(rng.choice([0, 1, 2, 3, 127, 128, 16383, 16384]) for _ in range(rng.randint(1, 2))))
+    if rng.random() < 0.12:
+        # sub-identifiers no SNMP OID can have (beyond 2^32-1) but BER can carry: k * 2^32 + a next to a
+        for o in list(inside)[:3]:
+            inside.add(o[:-1] + (o[-1] + rng.choice([2**32, 2**33, 2**32 * 3, 2**63, 2**64, 2**64 + 2**32]),))
     inside = sorted(inside)
     last = base[-1]
     outside = [base[:-1] + (last + 1,), base[:-1] + (last + 1, 1), base[:-1], (1, 3), base[:-1] + ((last << 7) & 0xFFFFFFFF | 1,), base[:-1] + (max(0, last - 1), 5)]
@@ -216,6 +220,11 @@ class C06(Prop):
                 return out
         if len(exs) > 1:
             run.sim.count("probe.multi-request-walk")
+        if any(a >= 2**32 for r in replies if r[0] == "match" for o, _ in r[1].get("varbinds", []) for a in ber.parse_oid_text(o)):
+            # a name that is not an SNMP OID: refusing it (SnmpDecodeError) and carrying on are both in order,
+            # the invariants above (containment, strictly increasing, termination) are what the statement demands
+            run.sim.count("probe.arc-beyond-32-bits")
+            return out
         rt = op.get("retry", 0)
         if res["ok"].get("retried_at"):
             run.sim.count("probe.walk-retried-after-timeout")
